@@ -99,18 +99,25 @@ def generate(seed, tier):
     if g.chance(0.3):
         # an rdf:List (the syntaxes have abbreviations for it: ( ... ) in Turtle/TriG, @list in JSON-LD), in some graph of the dataset
         gr = g.choice([None] + gnames) if quad else None
-        members = [g.choice([u("C"), u("s"), ["l", "7", None, XSD + "integer"], ["l", g.pick(STRINGS[:8]), None, None], ["l", "x", "en", None]]) for _ in range(g.randint(1, 3))]
+        members = [g.choice([u("C"), u("s"), ["l", "7", None, XSD + "integer"], ["l", g.pick(STRINGS[:8]), None, None], ["l", "x", "en", None]]) for _ in range(g.randint(0, 3))]
         cells = [["b", "l%d" % (i + 1)] for i in range(len(members))]
-        quads.append([g.pick([x for x in subs if x[0] == "u"]), g.pick([x for x in preds if not x[1].endswith("type")]), cells[0], gr])
+        quads.append([g.pick([x for x in subs if x[0] == "u"]), g.pick([x for x in preds if not x[1].endswith("type")]), cells[0] if cells else ["u", writers.RDF + "nil"], gr])
         for i, m in enumerate(members):
             quads.append([cells[i], ["u", writers.RDF + "first"], m, gr])
             quads.append([cells[i], ["u", writers.RDF + "rest"], cells[i + 1] if i + 1 < len(cells) else ["u", writers.RDF + "nil"], gr])
+    if fmt == "xml" and g.chance(0.25):
+        # (RDF/XML has rdf:parseType="Literal" for these)
+        quads.append([g.pick(subs), g.pick([x for x in preds if not x[1].endswith("type")]), ["l", g.choice(["a <b>c</b> d", "x &amp; y", '<b a="1&amp;2">t</b>', "plain"]), None, writers.RDF + "XMLLiteral"], None])
     if g.chance(0.2):
         # a container: rdf:_1 .. rdf:_k (RDF/XML has rdf:li for these)
         gr = g.choice([None] + gnames) if quad else None
         box = g.pick(subs)
         for i in range(g.randint(1, 3)):
             quads.append([box, ["u", writers.RDF + "_%d" % (i + 1)], g.choice([u("C"), ["l", "m%d" % i, None, None], ["b", "b3"]]), gr])
+        if g.chance(0.4):
+            # (a container inside: the numbering of rdf:li starts again in every node element)
+            for i in range(g.randint(1, 2)):
+                quads.append([["b", "b3"], ["u", writers.RDF + "_%d" % (i + 1)], g.choice([u("s"), ["l", "n%d" % i, None, None]]), gr])
     modes = list(MODES)
     g.shuffle(modes)
     nm = g.randint(6, len(modes))
